@@ -5,14 +5,13 @@ from __future__ import annotations
 
 import typing
 from collections import defaultdict
-from itertools import pairwise
+from itertools import pairwise, product
 from warnings import warn
 
 import numpy as np
 import pandas as pd
-from MDAnalysis.lib.mdamath import triclinic_vectors
-from MDAnalysis.lib.pkdtree import PeriodicKDTree
 from pymatgen.core import Structure
+from scipy.spatial import cKDTree
 
 from .caching import weak_lru_cache
 from .metrics import TrajectoryMetrics
@@ -509,19 +508,15 @@ def _calculate_atom_states(
     """
     lattice = trajectory.get_lattice()
 
-    cutoff = max(list(site_radius.values()))
-
-    # The periodic tree only knows the box by its lengths and angles and assumes
-    # the MDAnalysis orientation of the cell vectors (a along x, b in the xy-plane),
-    # so the cartesian coordinates must be expressed in that same frame.
-    box = np.array(lattice.parameters, dtype=np.float32)
-    box_vectors = triclinic_vectors(box)
-
     traj_frac_coords = trajectory.positions.reshape(-1, 3)
-    traj_cart_coords = np.dot(traj_frac_coords, box_vectors)
+    traj_cart_coords = lattice.get_cartesian_coords(traj_frac_coords)
 
-    periodic_tree: PeriodicKDTree = PeriodicKDTree(box=box)
-    periodic_tree.set_coords(traj_cart_coords, cutoff=cutoff)
+    tree = cKDTree(traj_cart_coords)
+
+    # The trajectory positions are wrapped to the unit cell, so for a radius smaller
+    # than the cell it suffices to also search around the 26 neighbouring periodic
+    # images of every site. This works for any cell shape and orientation.
+    images = np.array(list(product((-1, 0, 1), repeat=3)))
 
     shape = trajectory.positions.shape[0:2]
 
@@ -537,14 +532,23 @@ def _calculate_atom_states(
             frac_coords = sites.frac_coords
             key = None
 
-        cart_coords = np.dot(frac_coords, box_vectors)
-        site_index = periodic_tree.search_tree(cart_coords, radius * site_inner_fraction)
+        radius = radius * site_inner_fraction
 
-        if site_index.size == 0:
+        siteno = []
+        index = []
+
+        for k, site_frac_coords in enumerate(np.mod(frac_coords, 1)):
+            cart_coords = lattice.get_cartesian_coords(site_frac_coords + images)
+            hits = np.concatenate(tree.query_ball_point(cart_coords, radius)).astype(int)
+            index.append(hits)
+            siteno.append(np.full_like(hits, k))
+
+        siteno = np.concatenate(siteno)
+        index = np.concatenate(index)
+
+        if index.size == 0:
             warn(f'No floating species in range of {label} ({radius=})', stacklevel=2)
             continue
-
-        siteno, index = site_index.T
 
         if key is not None:
             # `siteno` indexes into this label's group of sites
